@@ -6,7 +6,9 @@ P="$(realpath "$1")"; TIER="$2"; shift 2
 cd /verif
 if ! git -C /repo diff --quiet; then echo "REFUSING: /repo has uncommitted changes"; exit 2; fi
 git -C /repo apply "$P" || { echo "patch does not apply"; exit 2; }
-trap 'git -C /repo checkout -- . ; git -C /repo clean -fdq src crates 2>/dev/null' EXIT
+# evidence/ and replays/ describe the unchanged tree: keep them out of reach of the mutated runs
+rm -rf work/evidence.keep work/replays.keep; cp -a evidence work/evidence.keep 2>/dev/null; cp -a replays work/replays.keep 2>/dev/null
+trap 'git -C /repo checkout -- . ; git -C /repo clean -fdq src crates 2>/dev/null; rm -rf evidence replays; mv work/evidence.keep evidence 2>/dev/null; mv work/replays.keep replays 2>/dev/null' EXIT
 for ID in "$@"; do
   OUT=$(./check "$ID" --tier "$TIER" 2>&1); RC=$?
   NV=$(echo "$OUT" | grep -c '^VIOLATION')
